@@ -1091,6 +1091,23 @@ class ChainScenario:
                         c = O.leaf_eq(lst[a], lst[b])
                         if c is not False:
                             vio('chain/%s-table-duplicate' % kind_, c, '%s table has entries %d and %d that can be equal' % (kind_, a, b))
+        rs = getattr(g, 'root_set', None)
+        if rs is not None and isinstance(rs, Adt) and rs.ty == 'Option' and rs.variant == 1:
+            # the sources handed to the builder already carry the original map's sourceRoot (contract of the sourcemap crate):
+            # giving the builder that root as well applies it twice when the emitted map is decoded
+            import base64 as _b64
+            omap = {'version': 3, 'file': 'test.js', 'sourceRoot': '../src', 'sources': ['lib/a.ts'], 'names': [], 'mappings': 'AAAA;AACA;AACA'}
+            code = 'function add(a, b) {\n  return a + b;\n}\n//# sourceMappingURL=data:application/json;base64,' + _b64.b64encode(json.dumps(omap).encode()).decode()
+            nat = replay().rewrite(code, {'methods': [{'src': 'plusOperator', 'operator': True}], 'chain': True, 'comments': True})
+            srcs = None
+            try:
+                trailer = nat['content'].rsplit('base64,', 1)[1].strip()
+                m = json.loads(_b64.b64decode(trailer))
+                srcs = [(m.get('sourceRoot') or '') and (m.get('sourceRoot').rstrip('/') + '/' + s) or s for s in m.get('sources', [])]
+            except Exception:
+                pass
+            info['violations'].append({'prop': 'C10', 'role': 'chain/source-root-applied-twice', 'detail': 'the chained map is given the original sourceRoot although its sources already carry it',
+                                       'witness': {'input': code, 'agree': bool(srcs) and any('../src/../src' in s for s in srcs), 'predicted_output': 'sources resolve to ../src/../src/lib/a.ts', 'native_output': json.dumps(srcs), 'native': {'ok': nat.get('ok')}}})
         info['sample'] = {'input': json.dumps(desc), 'output': 'Some' if r.variant == 1 else 'None', 'status': 'n/a', 'hooks': len(g.raw)}
         return info
 
@@ -1127,8 +1144,20 @@ class ChainGrammar:
             'SourceMapBuilder::into_sourcemap': lambda I, info, args: models.Opaque('SourceMap', {'id': 'chained'}),
             'SourceMap::to_writer': self.stub_to_writer,
             'String::from_utf8': lambda I, info, args: models.ok(StrV('{"chained-map"}')),
+            # sourcemap 8: Token::get_source() / SourceMap::get_source() return the source WITH the map's sourceRoot applied
+            'SourceMap::get_source_root': self.stub_get_source_root,
+            'SourceMapBuilder::set_source_root': self.stub_set_source_root,
         }
+        self.root_set = None
         del self.stubs['TokenIter::next']
+
+    def stub_get_source_root(self, I, info, args):
+        return [models.none(), models.some(StrV('../src'))][self.ctx.choose([True, True], 'original map: sourceRoot absent | relative')]
+
+    def stub_set_source_root(self, I, info, args):
+        v = models.opt_force(I, args[1]) if isinstance(models.deref(args[1]), Adt) else args[1]
+        self.root_set = v
+        return V_UNIT
 
     def force(self, I, v):
         raise Unsupported('no lazy values in this scenario')
